@@ -15,7 +15,8 @@ def TInv (s : St) : Thread → Prop
       ((pc ≠ .idle ∧ pc ≠ .inc ∧ pc ≠ .send ∧ pc ≠ .ret) → s.mon.mark p ≤ s.mon.wr cur) ∧
       ((pc = .inc ∨ pc = .send) → s.mon.mark p + 1 ≤ s.mon.sch cur) ∧
       (pc = .ret → s.mon.mark p + 1 ≤ s.mon.sch cur ∨ s.mon.stopCalled = true) ∧
-      ((pc = .chkRun ∨ pc = .cas ∨ pc = .inc ∨ pc = .send ∨ pc = .ret) → s.once = 3)
+      ((pc = .chkRun ∨ pc = .cas ∨ pc = .inc ∨ pc = .send ∨ pc = .ret) → s.once = 3) ∧
+      ((pc = .startUnlock ∨ pc = .onceEnd) → s.spawned = true)
   | .stopper _ pc =>
       (pc ≠ .idle → s.mon.stopCalled = true) ∧
       (pc = .store → s.running = true ∧ s.added = true) ∧
@@ -39,6 +40,7 @@ structure LInv (s : St) : Prop where
   stopped_called : s.stopped = true → s.mon.stopCalled = true
   once_le : s.once ≤ 3
   run_started : s.running = true → s.started = true
+  once3_spawned : s.once = 3 → s.spawned = true
 
 /-- Facts about the stepping thread that follow from the counting invariants. -/
 structure CFacts (s : St) (t : Thread) : Prop where
@@ -57,11 +59,11 @@ macro "heavyL" : tactic => `(tactic|
 set_option hygiene false in
 theorem linv_step {s s' : St} {t t' : Thread} (h : LInv s) (ht : TInv s t) (hc : CFacts s t)
     (hm : (s', t') ∈ step s t) : LInv s' := by
-  obtain ⟨h1, h2, h3, h4, h5, h6, h7, h8, h9, h10, h11, h12, h13, h14, h15⟩ := h
+  obtain ⟨h1, h2, h3, h4, h5, h6, h7, h8, h9, h10, h11, h12, h13, h14, h15, h16⟩ := h
   obtain ⟨c1, c2, c3, c4, c5, c6⟩ := hc
   step_cases
   all_goals (
-    refine ⟨?_, ?_, ?_, ?_, ?_, ?_, ?_, ?_, ?_, ?_, ?_, ?_, ?_, ?_, ?_⟩
+    refine ⟨?_, ?_, ?_, ?_, ?_, ?_, ?_, ?_, ?_, ?_, ?_, ?_, ?_, ?_, ?_, ?_⟩
     · first | exact h1 | heavyL
     · first | exact h2 | heavyL
     · first | exact h3 | heavyL
@@ -76,5 +78,6 @@ theorem linv_step {s s' : St} {t t' : Thread} (h : LInv s) (ht : TInv s t) (hc :
     · first | exact h12 | heavyL
     · first | exact h13 | heavyL
     · first | exact h14 | heavyL
-    · first | exact h15 | heavyL)
+    · first | exact h15 | heavyL
+    · first | exact h16 | heavyL)
 end Hive.BatchWriter
